@@ -271,6 +271,14 @@ def firstContributing (p : Peak) (dt : Int) : List Hit â†’ Option (List Hit)
   | [] => none
   | h :: rest => if p.time < h.time + h.length * dt then some (h :: rest) else firstContributing p dt rest
 
+/-- body of the peak loop once the first contributing hit is known: scan the hits, store the
+(down-sampled) waveform, set area and area per channel. Also returns the full-resolution buffer
+(ghost: only the theorems look at it). -/
+def sumOnePeak (dt : Int) (toPe : List Rat) (nCh : Nat) (p : Peak) (hits' : List Hit) : Except Err (Peak Ã— List Rat) :=
+  match scanPeakHits p dt toPe hits' { buf := zeros p.length.toNat, area := 0, apc := zeros nCh } with
+  | .error e => .error e
+  | .ok acc => .ok ({ storeDownsampled { p with area := acc.area } acc.buf with apc := acc.apc }, acc.buf)
+
 /-- the loop over peaks; `hits` is `hits[left_h_i:]` -/
 def sumLoop (dt : Int) (toPe : List Rat) (nCh : Nat) : List Peak â†’ List Hit â†’ Except Err (List Peak)
   | [], _ => .ok []
@@ -280,13 +288,12 @@ def sumLoop (dt : Int) (toPe : List Rat) (nCh : Nat) : List Peak â†’ List Hit â†
       -- `break` out of the peak loop: this peak has only lost its area, the rest is untouched
       .ok ({ p with area := 0 } :: ps)
     | some hits' =>
-      match scanPeakHits p dt toPe hits' { buf := zeros p.length.toNat, area := 0, apc := zeros nCh } with
+      match sumOnePeak dt toPe nCh p hits' with
       | .error e => .error e
-      | .ok acc =>
-        let p' := storeDownsampled { p with area := acc.area } acc.buf
+      | .ok (p', _) =>
         match sumLoop dt toPe nCh ps hits' with
         | .error e => .error e
-        | .ok r => .ok ({ p' with apc := acc.apc } :: r)
+        | .ok r => .ok (p' :: r)
 
 /-- `strax.sum_waveform(peaks, hits, records, record_links, adc_to_pe)` where every hit lies in one
 record with integer baseline and no bit shift, so that `_build_hit_waveform` yields `h.wave`;
